@@ -7,7 +7,9 @@ M5c `TankRun` — the loop of `WNTRSimulator.run_sim` as far as C05/C06 need it,
                   re-solve while the pass changes something the tracker watches (trial counter, `trials` limit) → save →
                   `update_network_previous_values` → next time on the hydraulic grid.
 
-Not modelled: rules (their interleaving is M5 `Sched`), feasibility controls (PRV/PSV/FCV source checks), isolation,
+Rules: evaluated on the rule grid inside the presolve pass (`Controls.presolveRules`, the loop M5 `Sched` models for time
+conditions), here with tank-level premises evaluated on the heads updated to the rule instant.  Models without rules use the
+simpler `Controls.presolve` (identical behaviour, see `presolveRules`).  Not modelled: feasibility controls (PRV/PSV/FCV source checks), isolation,
 `NotImplementedError` of pressure conditions on volume-curve tanks (the run model treats the outcome as "no backtrack").
 Rows carry two ghost fields (`before`, `due`) so that theorems can speak about the pass that preceded the save.
 Import-free apart from M7/M5b.
@@ -45,6 +47,9 @@ structure Cfg where
   ctls : List RCtl
   /-- the hydraulic solve: link state, time, tank heads ↦ solution, `none` = did not converge -/
   solve : Links → Int → List Rat → Option Sol
+  /-- rules (`IF premise THEN actions PRIORITY p`; else-actions are not modelled) and the rule timestep -/
+  rules : List (Cond × Nat × List Act) := []
+  ruleStep : Int := 360
   /-- opaque conditions in the presolve pass (time conditions): id, prev time, tentative time ↦ (holds, backtrack) -/
   timeCond : Nat → Int → Int → Bool × Int
 
@@ -70,6 +75,8 @@ structure St where
   demand : Option (List Rat)
   /-- `_last_value` per control (position in `cfg.ctls`; unused for opaque conditions) -/
   lasts : List Rat
+  /-- `_rule_iter` -/
+  ruleIter : Int := 1
   /-- saved rows, newest first -/
   rows : List Row
   error : Bool
@@ -137,9 +144,23 @@ def tentativeHeads (cfg : Cfg) (s : St) : List Rat :=
 def preCheck (cfg : Cfg) (s : St) : List Due × List Rat :=
   check cfg (·.pre) (tentativeHeads cfg s) s.demand none s.prevTime s.simTime cfg.ctls s.lasts
 
-/-- link state and accepted time after the presolve pass -/
-def preResult (cfg : Cfg) (s : St) : Links × Int :=
-  presolve cfg.tracked s.first (preCheck cfg s).1 s.links s.simTime
+/-- the rules triggered at rule instant `r`, run in priority order on `ls`: `update_tank_heads` to `r` (not on the first step),
+`_rules.check()`, stable sort by priority, all then-actions -/
+def ruleAt (cfg : Cfg) (s : St) (r : Int) (ls : Links) : Links :=
+  let heads := if s.first then s.heads
+    else updHeads cfg.pi cfg.tanks s.prevHeads s.heads (s.demand.getD []) ((r - s.prevTime : Int) : Rat)
+  let trig := cfg.rules.filter fun ru => (evalCond cfg heads s.demand none s.prevTime r 0 ru.1).1
+  let sorted := sortBy (fun ru : Cond × Nat × List Act => (ru.2.1 : Int)) trig
+  sorted.foldl (fun l ru => ru.2.2.foldl write l) ls
+
+/-- link state, accepted time and `_rule_iter` after the presolve pass -/
+def preResultR (cfg : Cfg) (s : St) : Links × Int × Int :=
+  if cfg.rules.isEmpty then
+    let r := presolve cfg.tracked s.first (preCheck cfg s).1 s.links s.simTime
+    (r.1, r.2, s.ruleIter)
+  else presolveRules cfg.tracked s.first (preCheck cfg s).1 s.links s.simTime cfg.ruleStep s.ruleIter (ruleAt cfg s)
+
+def preResult (cfg : Cfg) (s : St) : Links × Int := ((preResultR cfg s).1, (preResultR cfg s).2.1)
 
 def acceptedHeads (cfg : Cfg) (s : St) : List Rat :=
   if s.first then s.heads
@@ -154,7 +175,8 @@ def step (cfg : Cfg) (s : St) : St :=
   | .error => { s with error := true }
   | .ok sol before after due lasts =>
     { simTime := nextGrid cfg.hyd t1, prevTime := t1, first := false, links := after, prevHeads := heads1, heads := heads1,
-      demand := some sol.demand, lasts := lasts, rows := ⟨t1, heads1, sol.demand, after, before, due⟩ :: s.rows, error := false }
+      demand := some sol.demand, lasts := lasts, ruleIter := (preResultR cfg s).2.2,
+      rows := ⟨t1, heads1, sol.demand, after, before, due⟩ :: s.rows, error := false }
 
 def run (cfg : Cfg) : Nat → St → St
   | 0, s => s
